@@ -1,3 +1,3 @@
 #!/usr/bin/env bash
 # thorough-only extra leg for C04: reduced workload under Miri
-exec "$(dirname "$0")/miri.sh" C04 "$1" 1/100 8
+exec "$(dirname "$0")/miri.sh" C04 "$1" 1/500 8
